@@ -208,6 +208,45 @@ theorem repElem_scalar_eq_normKey (c : Nat → Val → Val) (k : Kind) (v : Val)
     repElem c (.scalar k) v = normKey v := by
   cases v <;> rfl
 
+/-! ### the generated getters -/
+
+/-- The generated getter returns what `Get` returns, rendered in the getter's tokens — on every slot value
+    except the typed-nil oneof wrapper (where the getter panics, see `getterF_oneNil`). No typing hypothesis. -/
+theorem getterF_eq_asGetter_getF (f : FieldDesc) (v : Val) (h : isOneNil v = false) :
+    Reflect.getterF f v = (Reflect.getF f v).asGetter := by
+  unfold Reflect.getterF Reflect.getF
+  cases hs : f.shape with
+  | singular =>
+    simp only []
+    cases f.elem with
+    | scalar k => simp only [outElem]; split <;> rfl
+    | message mi => rfl
+  | oneof g =>
+    simp only []
+    cases v <;> simp only [isOneNil, reduceCtorEq] at h <;>
+      (cases f.elem with
+       | scalar k => simp only [outElem]; split <;> rfl
+       | message mi => rfl)
+  | repeated p =>
+    simp only []
+    cases v.elems <;> rfl
+  | map kk =>
+    simp only []
+    cases v.elems <;> rfl
+
+/-- on the typed-nil wrapper the member getter and `Get` both answer the default (fix 8687e51) -/
+theorem getterF_oneNil (f : FieldDesc) (g : Nat) (hs : f.shape = .oneof g) :
+    Reflect.getterF f .oneNil = outElem f.elem (Elem.zeroVar f.elem) ∧
+    Reflect.getF f .oneNil = outElem f.elem (Elem.zeroVar f.elem) := by
+  simp only [Reflect.getterF, Reflect.getF, hs, and_self]
+
+/-- the zero value the getter returns for a nil receiver is the getter's value on the field of `&T{}` -/
+theorem getterF_zero (f : FieldDesc) : Reflect.getterF f f.zero = Reflect.getterZero f := by
+  unfold Reflect.getterF Reflect.getterZero FieldDesc.zero
+  cases f.shape <;> cases f.elem <;> simp only [Val.elems, List.length_nil]
+  · rename_i k; simp only [Elem.zeroVar]
+  · rfl
+
 /-- ops whose output comes from the codec -/
 def ROp.usesCodec : ROp → Bool
   | .size => true
@@ -242,7 +281,6 @@ theorem read_refines_msg (S : Schema) (n i : Nat) (s : Val) (o : ROp)
   case which g => rw [whichFrom_abs]
   case range =>
     rw [idxFilter_abs S n _ _ _ hall]
-    simp [any_oneNil_false S n _ _ hlen hall]
   case llen j =>
     cases hf : (S.msg i).fields[j]? with
     | none => rfl
@@ -301,6 +339,14 @@ theorem read_refines_msg (S : Schema) (n i : Nat) (s : Val) (o : ROp)
         sortBy_map (klt kk) (normEntry (repNorm S n) kk f.elem) (klt_normEntry _ kk f.elem), List.map_map,
         sortEntries_eq]
       congr 1
+  case getter j =>
+    cases hf : (S.msg i).fields[j]? with
+    | none => rfl
+    | some f =>
+      simp only []
+      have hv := slotOK_getD hs hf
+      rw [absSlots_getD _ _ _ _ f hf hlen, getF_refines S n hv,
+        getterF_eq_asGetter_getF f _ (not_oneNil_of_slotOK (msgOK_oneNil S false n) hv)]
 
 /-! ### the nil receiver / the invalid message -/
 
@@ -312,6 +358,11 @@ theorem any_oneNil_zero : ∀ (fs : List FieldDesc), (fs.map FieldDesc.zero).any
     cases f.shape <;> cases f.elem <;> simp [isOneNil]
     rename_i k; cases k <;> simp [Kind.isBlob]
 
+theorem emptyMsg_slot' (S : Schema) (i j : Nat) (f : FieldDesc) (hf : (S.msg i).fields[j]? = some f) :
+    (emptyMsg S i).slot j = f.zero := by
+  simp only [Val.slot, emptyMsg, Val.slots_msg, List.getD, List.getElem?_map, hf]
+  rfl
+
 /-- IMPL: every read except `valid` (and the codec ops, see `C09_nil_codec`) gives on the nil receiver what
     it gives on the empty message -/
 theorem impl_read_none (S : Schema) (i : Nat) (o : ROp) (hv : o ≠ .valid) (hc : o.usesCodec = false) :
@@ -320,6 +371,14 @@ theorem impl_read_none (S : Schema) (i : Nat) (o : ROp) (hv : o ≠ .valid) (hc 
   · simp only [Reflect.read, emptyMsg, Val.isNone, Val.slots_msg, any_oneNil_zero, idxFilter_zero_impl]
     rfl
   · exact absurd rfl hv
+  · rename_i j
+    simp only [Reflect.read, Val.isNone, if_true, emptyMsg, Bool.false_eq_true, if_false]
+    cases hf : (S.msg i).fields[j]? with
+    | none => rfl
+    | some f =>
+      simp only []
+      rw [← getterF_zero f, ← emptyMsg_slot' S i j f hf]
+      rfl
 
 theorem spec_read_none (S : Schema) (i : Nat) (o : ROp) (hv : o ≠ .valid) (hc : o.usesCodec = false) :
     SpecReflect.read S i .none o = SpecReflect.read S i (emptyMsg S i) o := by
